@@ -282,3 +282,13 @@ Proof.
   - apply side_okb_c_ok. vm_compute. reflexivity.
   - subst p2. apply side_okb_c_ok. vm_compute. reflexivity.
 Qed.
+
+(** results of the component-aware strategy among the results of the exhaustive one: 2 of 3 on SCCS.CS *)
+Example strategy_subset_results_nonvacuous :
+  side_okb_c ds_host ds_p = true /\ length (glued_of 1%N ds_host ds_p) = 2%nat /\ length (glued_of 0%N ds_host ds_p) = 3%nat /\
+  (forall T, In T (glued_of 1%N ds_host ds_p) -> exists T', In T' (glued_of 0%N ds_host ds_p) /\ obs_eq T T').
+Proof.
+  assert (S : side_okb_c ds_host ds_p = true) by (vm_compute; reflexivity).
+  split; [exact S|]. split; [vm_compute; reflexivity|]. split; [vm_compute; reflexivity|].
+  exact (proj1 (glued_comp_subset_all ds_host ds_p (side_okb_c_ok _ _ S))).
+Qed.
